@@ -359,7 +359,9 @@ pub(crate) fn validate_directives<'dir>(
                     );
                 }
             }
-        } else {
+        } else if schema.is_some() {
+            // Without a schema (standalone executable validation) it is not known which
+            // directives are defined: even built-in ones like `@skip` are not in scope.
             diagnostics.push(
                 loc,
                 DiagnosticData::UndefinedDirective { name: name.clone() },
